@@ -184,10 +184,23 @@ func (e *Engine) top(t types.Type) AV {
 		return Range(negInf, posInf)
 	}
 	a := Range(lo, hi)
-	if lo == 0 {
-		a.SanLo = true
+	// an unknown internal value is not a raw adversarial scalar: the "no limit applied at all" witness
+	// shape is reserved for values marked Raw at their source
+	a.SanLo, a.SanHi = true, true
+	_ = size
+	return a
+}
+
+// rawSource: an adversarial scalar as it arrives.
+func (e *Engine) rawSource(t types.Type) AV {
+	lo, hi, size, _, ok := e.typeRange(t)
+	if !ok {
+		lo, hi, size = negInf, posInf, 64
 	}
-	if size < 64 && size < e.cfg.IntSize {
+	a := Range(lo, hi)
+	a.Taint, a.Exact, a.Raw = true, true, true
+	a.SanLo, a.SanHi = lo == 0, false
+	if size < 32 {
 		a.SanLo, a.SanHi = true, true // a narrow type bounds its values by itself
 	}
 	return a
@@ -439,10 +452,7 @@ func (e *Engine) evalFunc(s *fstate, round int) {
 		s.seeded = true
 		for i, p := range fn.Params {
 			if isIntType(p.Type()) {
-				t := e.top(p.Type())
-				t.Taint = true
-				t.Exact = true
-				s.params[i] = t
+				s.params[i] = e.rawSource(p.Type())
 			}
 		}
 	}
@@ -767,10 +777,10 @@ func (e *Engine) transfer(s *fstate, v ssa.Value, b *ssa.BasicBlock) AV {
 			return r
 		}
 		if ta, ok := x.Tuple.(*ssa.TypeAssert); ok && x.Index == 0 {
-			r := e.top(x.Type())
-			r.Taint = e.ifaceTaint(s, ta.X)
-			r.Exact = r.Taint
-			return r
+			if e.ifaceTaint(s, ta.X) {
+				return e.rawSource(x.Type())
+			}
+			return e.top(x.Type())
 		}
 		if lk, ok := x.Tuple.(*ssa.Lookup); ok && x.Index == 0 {
 			_ = lk
@@ -778,10 +788,10 @@ func (e *Engine) transfer(s *fstate, v ssa.Value, b *ssa.BasicBlock) AV {
 		}
 		return e.top(x.Type())
 	case *ssa.TypeAssert:
-		r := e.top(x.Type())
-		r.Taint = e.ifaceTaint(s, x.X)
-		r.Exact = r.Taint
-		return r
+		if e.ifaceTaint(s, x.X) {
+			return e.rawSource(x.Type())
+		}
+		return e.top(x.Type())
 	case *ssa.Field:
 		if tn := namedStruct(x.X.Type()); tn != nil {
 			return e.fieldVal(fieldKey{tn, x.Field}, x.Type(), fieldIsTainted(e, tn, x.Field))
@@ -887,9 +897,7 @@ func fieldIsTainted(e *Engine, tn *types.TypeName, f int) bool {
 
 func (e *Engine) fieldVal(k fieldKey, t types.Type, tainted bool) AV {
 	if tainted {
-		r := e.top(t)
-		r.Taint, r.Exact = true, true
-		return r
+		return e.rawSource(t)
 	}
 	if a, ok := e.fields[k]; ok {
 		r := e.clip(a, t)
@@ -1240,8 +1248,10 @@ func (e *Engine) callResult(s *fstate, c *ssa.Call, b *ssa.BasicBlock, idx int) 
 		name := sc.String()
 		switch {
 		case strings.HasPrefix(name, "(encoding/binary.bigEndian).Uint") || strings.HasPrefix(name, "(encoding/binary.littleEndian).Uint"):
+			if e.cfg.ByteLoadsTainted {
+				return e.rawSource(t)
+			}
 			r := e.top(t)
-			r.Taint = e.cfg.ByteLoadsTainted
 			r.Exact = true
 			return r
 		case name == "math/bits.Len32" || name == "math/bits.Len":
@@ -1854,3 +1864,9 @@ func okReturnReachableAvoiding(from *ssa.BasicBlock, avoid map[*ssa.BasicBlock]b
 	}
 	return walk(from)
 }
+
+// FieldMayBeZero reports whether the field may still hold its zero value somewhere.
+func (e *Engine) FieldMayBeZero(tn *types.TypeName, f int) bool { return e.hasZeroDefault(fieldKey{tn, f}) }
+
+// Analysed reports whether fn is part of the analysed set.
+func (e *Engine) Analysed(fn *ssa.Function) bool { return e.fs[fn] != nil }
